@@ -252,6 +252,72 @@ func RunSized(c Case) (vs []viol, outcome string, evals int64, multi int) {
 	return vs, sb.String(), evals, multi
 }
 
+// RunMany: c.Sizes = {pairs, key length, value length}: a table of many small pairs, streamed and read
+// unary, full and keys-only: every message below the limit, all but the last flagged more, the
+// concatenation is the range.
+func RunMany(c Case) (vs []viol, outcome string) {
+	n, kl, vl := c.Sizes[0], c.Sizes[1], c.Sizes[2]
+	env := fsmx.NewEnv()
+	inst, _, err := env.Open("t", 10001, fsm.RecoveryTypeSnapshot)
+	if err != nil {
+		return []viol{{"open-error", err.Error()}}, ""
+	}
+	defer inst.Close()
+	val := bytes.Repeat([]byte("v"), vl)
+	idx := uint64(0)
+	for at := 0; at < n; at += 5000 {
+		var kvs []*regattapb.KeyValue
+		for i := at; i < min(n, at+5000); i++ {
+			k := fmt.Sprintf("%0*d", kl, i)
+			kvs = append(kvs, &regattapb.KeyValue{Key: []byte(k), Value: val})
+		}
+		idx++
+		if _, err := inst.Update([]sm.Entry{fsmx.Entry(idx, &regattapb.Command{Table: Table, Type: regattapb.Command_PUT_BATCH, Batch: kvs})}); err != nil {
+			return []viol{{"update-error", err.Error()}}, ""
+		}
+	}
+	var sb strings.Builder
+	for _, keysOnly := range []bool{false, true} {
+		req := &regattapb.RequestOp_Range{Key: []byte{0}, RangeEnd: []byte{0}, KeysOnly: keysOnly}
+		res, err := inst.F.Lookup(fsm.IteratorRequest{RangeOp: req})
+		if err != nil {
+			return append(vs, viol{"many/read-error", err.Error()}), ""
+		}
+		total, msgs, lastMore := 0, 0, false
+		prev := ""
+		res.(iter.Seq[*regattapb.ResponseOp_Range])(func(m *regattapb.ResponseOp_Range) bool {
+			msgs++
+			if sz := encodedSize(m); sz >= grpcLimit {
+				vs = append(vs, viol{"many/stream-message-too-large/" + form(req), fmt.Sprintf("%d pairs of %d+%d bytes: message %d holds %d pairs and encodes to %d bytes", n, kl, vl, msgs, len(m.Kvs), sz)})
+			}
+			for _, kv := range m.Kvs {
+				if string(kv.Key) <= prev {
+					vs = append(vs, viol{"many/stream-not-ascending", fmt.Sprintf("%q after %q", kv.Key, prev)})
+				}
+				prev = string(kv.Key)
+			}
+			total += len(m.Kvs)
+			lastMore = m.More
+			return true
+		})
+		if total != n || lastMore {
+			vs = append(vs, viol{"many/stream-content", fmt.Sprintf("%d pairs streamed of %d, last message more=%v", total, n, lastMore)})
+		}
+		got, err := inst.Range(req)
+		if err != nil {
+			return append(vs, viol{"many/read-error", err.Error()}), ""
+		}
+		if sz := encodedSize(got); sz >= grpcLimit {
+			vs = append(vs, viol{"many/unary-message-too-large/" + form(req), fmt.Sprintf("%d pairs of %d+%d bytes: the unary answer holds %d pairs and encodes to %d bytes", n, kl, vl, len(got.Kvs), sz)})
+		}
+		if got.More != (len(got.Kvs) < n) || got.Count != int64(len(got.Kvs)) {
+			vs = append(vs, viol{"many/unary-flags", fmt.Sprintf("returned %d of %d more=%v count=%d", len(got.Kvs), n, got.More, got.Count)})
+		}
+		fmt.Fprintf(&sb, "%v:%d;", keysOnly, msgs)
+	}
+	return vs, sb.String()
+}
+
 // RunSweep: two pairs whose sizes add up to every value in a window around the message limit (the
 // second value shrinks byte by byte): wherever the implementation draws the line between "fits into
 // this message" and "starts the next one", the largest message it ever builds is in this sweep.
@@ -364,7 +430,7 @@ func Run(r *evid.Run) {
 	if r.Thorough() {
 		maxSized = 5
 	}
-	r.Rule(fmt.Sprintf("(small) all 64 subsets of 6 prefix-related keys x all 100 bound pairs over 10 bounds incl. the wildcard x every limit 0..n+1 x {full, keys-only, count-only}, each as unary Lookup and as streamed iterator, compared with the sorted-map model; (sized) every content of 1..%d pairs with value sizes from {1KiB,1MiB,2MiB-1KiB,2MiB} in every order x every limit x 3 forms: stream concatenation, per-message flags/counts, encoded size < 4MiB, unary prefix + truthful more; (sweep) two pairs of 2MiB and 2MiB-d bytes for EVERY d in 0..2099, streamed and unary: wherever the line between 'fits' and 'next message' is drawn, the largest message ever built lies in the sweep and must encode (with a maximal header) below 4MiB; (paging) for sized contents, one write applied between any two pulls; (api) 4 small and 3 sized contents on a real storage.Engine, every bound pair x limit x form x {serializable, linearizable} through the real KVServer.Range and KVServer.IterateRange (recording stream): content, counts, more flags, headers, message sizes. Non-trivial: the read returned at least one pair or count>0; distinct = distinct renderings of all answers of a content", maxSized))
+	r.Rule(fmt.Sprintf("(small) all 64 subsets of 6 prefix-related keys x all 100 bound pairs over 10 bounds incl. the wildcard x every limit 0..n+1 x {full, keys-only, count-only}, each as unary Lookup and as streamed iterator, compared with the sorted-map model; (sized) every content of 1..%d pairs with value sizes from {1KiB,1MiB,2MiB-1KiB,2MiB} in every order x every limit x 3 forms: stream concatenation, per-message flags/counts, encoded size < 4MiB, unary prefix + truthful more; (many) tables of 30000 / 40000 small pairs (197+1, 24+0 bytes), streamed and unary, full and keys-only: message sizes incl. per-pair framing, flags, order, completeness; (sweep) two pairs of 2MiB and 2MiB-d bytes for EVERY d in 0..2099, streamed and unary: wherever the line between 'fits' and 'next message' is drawn, the largest message ever built lies in the sweep and must encode (with a maximal header) below 4MiB; (paging) for sized contents, one write applied between any two pulls; (api) 4 small and 3 sized contents on a real storage.Engine, every bound pair x limit x form x {serializable, linearizable} through the real KVServer.Range and KVServer.IterateRange (recording stream): content, counts, more flags, headers, message sizes. Non-trivial: the read returned at least one pair or count>0; distinct = distinct renderings of all answers of a content", maxSized))
 	// small
 	var evals int64
 	par.For(64, r.Expired, func(i int64) {
@@ -395,6 +461,17 @@ func Run(r *evid.Run) {
 	})
 	if done < int64(len(seqs)) {
 		r.Cap(fmt.Sprintf("deadline: %d of %d sized contents", done, len(seqs)))
+	}
+	// many small pairs: the per-pair framing (tags, length prefixes) dominates what a size estimate
+	// that only adds up key and value lengths overlooks
+	for _, shape := range [][3]int{{30000, 197, 1}, {40000, 24, 0}} { // (iterate() re-measures the growing message for every pair: quadratic, keep the tables moderate)
+		c := Case{Kind: "many", Sizes: shape[:]}
+		vs, outcome := RunMany(c)
+		r.Outcome("many"+outcome, true)
+		r.AddExtra("many_small_pair_contents", 1)
+		for _, v := range vs {
+			r.Violate(v.sig, v.detail, c)
+		}
 	}
 	// boundary sweep
 	window := 2100
@@ -469,6 +546,8 @@ func Replay(raw json.RawMessage) (string, bool) {
 		vs, _, _ = RunPaging(c)
 	case "sweep":
 		vs, _ = RunSweep(c)
+	case "many":
+		vs, _ = RunMany(c)
 	}
 	var sb strings.Builder
 	seen := map[string]bool{}
